@@ -2,7 +2,7 @@
 # All properties on the clean tree (quick tier) + the whole variant/seeded corpus.
 # Exit 1 if the clean tree does not hold, or if a corpus entry that was as expected before (not listed in
 # notes/corpus_open.txt) is not as expected now.  `tools/precommit.sh --update` rewrites notes/corpus_open.txt.
-cd /verif
+cd "$(dirname "$0")/.." || exit 2
 if [ "$1" = "--update" ] && [ -f /tmp/rf/corpus_now.txt ] && [ "$2" != "--rerun" ]; then
   # reuse the result of the last full run (a run takes a quarter of an hour)
   cp /tmp/rf/corpus_now.txt notes/corpus_open.txt; echo "open corpus entries: $(wc -l < notes/corpus_open.txt)"; exit 0
